@@ -98,39 +98,24 @@ def _items(rng, n_random, n_sampled, max_blocks=3, n_hist=4):
 
 
 # ----------------------------------------------------------------------------- one network
-def _check_one(sn, net, spec, alphas, winners, T, x, snapshot, seed_line, hist=None):
-    """Real export for one coefficient assignment: canonical answer + oracle verdicts."""
+def _export_and_structure(sn, net, spec, winners, seed_line, snapshot):
+    """export() at the current coefficients: driver request, canonical real answer, and every clause of
+    the property that does not need a forward pass (arg-max branches kept, losers and combiners gone,
+    layers outside blocks / winners' layers the same objects with unchanged parameters)."""
     import torch
     from plinio.methods.supernet.nn.combiner import SuperNetCombiner
-    rec = {'fail': [], 'err': None}
-    if hist is None:
-        S.set_alpha(sn, alphas)
-        if not all(b.get('hard_ctor') for b in spec['blocks']):
-            sn.update_softmax_options(hard=True)
-        if T != 1.0:
-            sn.update_softmax_options(temperature=T)
-        sn.eval()
-        with torch.no_grad():
-            y = sn(x)
-    else:
-        # an op sequence ending in export(): NO forward pass is added here; the hard-selection
-        # reference output is computed after export() (see below)
-        rec.update(_apply_history(sn, spec, hist, x))
-        y = None
+    rec = {'fail': [], 'err': None, '_e': None}
     rec['line'] = 'export alpha=%s %s' % (S.alpha_field(sn), seed_line)
     combs = S.combiners(sn)
     # winner the property speaks of: arg-max of the raw coefficients (exact floats, unique by construction)
     want = []
-    for (name, c), a in zip(combs, alphas):
+    for name, c in combs:
         vals = [float(v) for v in c.alpha.detach().tolist()]
         want.append(max(range(len(vals)), key=lambda i: vals[i]))
     rec['want'] = want
-    if want != list(winners):
+    rec['alphas_now'] = [[float(v) for v in c.alpha.detach().tolist()] for _, c in combs]
+    if winners is not None and want != list(winners):
         rec['fail'].append(('generator', 'generator produced winners %s, wanted %s' % (want, winners)))
-    if hist is not None:
-        # "untouched" is judged against the state right before export (training-mode forward passes of
-        # the history legitimately update BatchNorm statistics)
-        snapshot = {k: v.detach().clone() for k, v in net.state_dict().items()}
     try:
         e = sn.export()
     except Exception as ex:                                     # noqa: BLE001 - the finding is the exception
@@ -138,32 +123,13 @@ def _check_one(sn, net, spec, alphas, winners, T, x, snapshot, seed_line, hist=N
         rec['real'] = 'err'
         rec['fail'].append(('raises', 'export() raises ' + rec['err']))
         return rec
+    rec['_e'] = e
     # the winner export() used, read BEFORE anything else touches the combiners
     real_win = sorted('%s|%d' % (name, c.best_layer_index()) for name, c in combs)
-    if y is None:
-        # reference: the SuperNet evaluated with hard (one-hot) selection at the CURRENT coefficients
-        sn.update_softmax_options(hard=True)
-        sn.eval()
-        with torch.no_grad():
-            y = sn(x)
-    try:
-        with torch.no_grad():
-            y2 = e.eval()(x)
-    except Exception as ex:                                     # noqa: BLE001
-        rec['fail'].append(('exported-forward-raises', 'exported network cannot be evaluated: %s: %s'
-                            % (type(ex).__name__, str(ex)[:160])))
-        y2 = None
     toks = S.graph_tokens(e, SuperNetCombiner)
     mods = sorted(S.module_names(e))
     rec['real'] = 'ok win=[%s] nodes=[%s] mods=[%s]' % (','.join(real_win), ','.join(toks), ','.join(mods))
     rec['n_nodes'] = len(toks)
-    # ---- oracle: the statement itself
-    if y2 is not None:
-        if y2.shape != y.shape or not torch.allclose(y, y2, atol=1e-5, rtol=1e-5):
-            d = float((y - y2).abs().max()) if y2.shape == y.shape else float('nan')
-            rec['fail'].append(('output-differs', 'export().eval()(x) differs from the hard-selection SuperNet '
-                                'by %.3g' % d))
-        rec['bit_equal'] = bool(y2.shape == y.shape and torch.equal(y, y2))
     names = set(mods)
     for bi, ((cname, c), w) in enumerate(zip(combs, want)):
         parent = cname.rsplit('.', 1)[0]
@@ -200,6 +166,84 @@ def _check_one(sn, net, spec, alphas, winners, T, x, snapshot, seed_line, hist=N
     return rec
 
 
+def _compare_output(rec, y, x):
+    """`export().eval()(x)` against the hard-selection SuperNet output `y`."""
+    import torch
+    e = rec.pop('_e', None)
+    if e is None:
+        return
+    try:
+        with torch.no_grad():
+            y2 = e.eval()(x)
+    except Exception as ex:                                     # noqa: BLE001
+        rec['fail'].append(('exported-forward-raises', 'exported network cannot be evaluated: %s: %s'
+                            % (type(ex).__name__, str(ex)[:160])))
+        return
+    if y2.shape != y.shape or not torch.allclose(y, y2, atol=1e-5, rtol=1e-5):
+        d = float((y - y2).abs().max()) if y2.shape == y.shape else float('nan')
+        rec['fail'].append(('output-differs', 'export().eval()(x) differs from the hard-selection SuperNet '
+                            'by %.3g' % d))
+    rec['bit_equal'] = bool(y2.shape == y.shape and torch.equal(y, y2))
+
+
+def _check_one(sn, net, spec, alphas, winners, T, x, snapshot, seed_line):
+    """Real export for one coefficient assignment: canonical answer + oracle verdicts."""
+    import torch
+    S.set_alpha(sn, alphas)
+    if not all(b.get('hard_ctor') for b in spec['blocks']):
+        sn.update_softmax_options(hard=True)
+    if T != 1.0:
+        sn.update_softmax_options(temperature=T)
+    sn.eval()
+    with torch.no_grad():
+        y = sn(x)
+    rec = _export_and_structure(sn, net, spec, winners, seed_line, snapshot)
+    _compare_output(rec, y, x)
+    return rec
+
+
+def _hard_reference(sn, alphas, x):
+    """The SuperNet evaluated with hard (one-hot) selection at the given coefficients."""
+    import torch
+    S.set_alpha(sn, alphas)
+    sn.update_softmax_options(hard=True)
+    sn.eval()
+    with torch.no_grad():
+        return sn(x)
+
+
+def _run_history(sn, net, spec, hist, x, seed_line):
+    """An op sequence on ONE SuperNet, with export() as a repeatable op and a final export().  Every
+    export is checked against the arg-max of the coefficients current AT THAT TIME.  No forward pass is
+    added between the ops: the hard-selection reference outputs are computed after the last export()
+    (the exported networks share their layers with the SuperNet, so they are evaluated then as well)."""
+    recs = []
+    state = {'st0': _comb_state_field(sn, spec), 'toks': []}
+
+    def do_export(prefix):
+        # "untouched" is judged against the state right before this export (training-mode forward
+        # passes of the history legitimately update BatchNorm statistics)
+        snapshot = {k: v.detach().clone() for k, v in net.state_dict().items()}
+        rec = _export_and_structure(sn, net, spec, None, seed_line, snapshot)
+        rec['hist'] = prefix
+        rec['alphas'], rec['winners'] = rec['alphas_now'], rec['want']
+        recs.append(rec)
+
+    for k, op in enumerate(hist):
+        if op['op'] == 'export':
+            do_export(hist[:k])
+        else:
+            _apply_op(sn, op, x, state)
+    info = _history_answer(sn, spec, hist, state)
+    do_export(list(hist))
+    recs[-1].update(info)
+    for rec in recs:
+        if rec.get('_e') is not None:
+            _compare_output(rec, _hard_reference(sn, rec['alphas_now'], x), x)
+        rec.pop('_e', None)
+    return recs
+
+
 def _comb_state_field(sn, spec):
     """`st=[…]` of the driver's `history` request, read off the real combiners."""
     import torch
@@ -211,44 +255,61 @@ def _comb_state_field(sn, spec):
     return '[' + ','.join(toks) + ']'
 
 
-def _apply_history(sn, spec, hist, x):
-    """Run the op sequence on the real SuperNet; return the driver request and the real answer."""
+def _apply_op(sn, op, x, state):
+    """One non-export op of a history on the real SuperNet; records the driver token."""
+    import torch
+    import torch.nn as nn
+    combs = S.combiners(sn)
+    toks = state['toks']
+    if op['op'] == 'alpha':
+        name, c = combs[op['block']]
+        t = torch.tensor(op['a'], dtype=torch.float32)
+        how = op['how']
+        if how == 'copy':                   # in-place write on the Parameter (what an optimizer step does)
+            with torch.no_grad():
+                c.alpha.copy_(t)
+        elif how == 'data':                 # assignment of new storage through .data
+            c.alpha.data = t.clone()
+        elif how == 'datacopy':             # in-place write through .data (no autograd version bump)
+            c.alpha.data.copy_(t)
+        elif how == 'param':                # a fresh Parameter object
+            c.alpha = nn.Parameter(t.clone(), requires_grad=c.alpha.requires_grad)
+        else:                               # checkpoint restore
+            sd = {k: v.clone() for k, v in sn.state_dict().items()}
+            key = [k for k in sd if k.endswith(name + '.alpha')]
+            sd[key[0]] = t.clone()
+            sn.load_state_dict(sd)
+        toks.append('a|%s|%s' % (name, '|'.join(S.frac(v) for v in c.alpha.detach().tolist())))
+    elif op['op'] == 'hard':
+        sn.update_softmax_options(hard=bool(op['v']))
+        toks.append('h|%d' % bool(op['v']))
+    elif op['op'] == 'temp':
+        sn.update_softmax_options(temperature=op['v'])
+        toks.append('t')
+    elif op['op'] == 'fwd':
+        (sn.train if op['train'] else sn.eval)()
+        torch.manual_seed(op.get('seed', 0))
+        with torch.no_grad():
+            sn(x)
+        toks.append('f|%d' % bool(op['train']))
+
+
+def _history_answer(sn, spec, hist, state):
+    """Driver request for the whole history and the real combiners' state after it."""
     import torch
     combs = S.combiners(sn)
-    st_field = _comb_state_field(sn, spec)
-    op_toks = []
+    toks, k = [], 0
     for op in hist:
-        if op['op'] == 'alpha':
-            name, c = combs[op['block']]
-            t = torch.tensor(op['a'], dtype=torch.float32)
-            if op['how'] == 'copy':                 # in-place write (what an optimizer step does)
-                with torch.no_grad():
-                    c.alpha.copy_(t)
-            elif op['how'] == 'data':               # assignment of new storage
-                c.alpha.data = t.clone()
-            else:                                   # checkpoint restore
-                sd = {k: v.clone() for k, v in sn.state_dict().items()}
-                key = [k for k in sd if k.endswith(name + '.alpha')]
-                sd[key[0]] = t.clone()
-                sn.load_state_dict(sd)
-            op_toks.append('a|%s|%s' % (name, '|'.join(S.frac(v) for v in c.alpha.detach().tolist())))
-        elif op['op'] == 'hard':
-            sn.update_softmax_options(hard=bool(op['v']))
-            op_toks.append('h|%d' % bool(op['v']))
-        elif op['op'] == 'temp':
-            sn.update_softmax_options(temperature=op['v'])
-            op_toks.append('t')
-        elif op['op'] == 'fwd':
-            (sn.train if op['train'] else sn.eval)()
-            torch.manual_seed(op.get('seed', 0))
-            with torch.no_grad():
-                sn(x)
-            op_toks.append('f|%d' % bool(op['train']))
+        if op['op'] == 'export':
+            toks.append('e')
+        else:
+            toks.append(state['toks'][k])
+            k += 1
     real = 'win=[%s] sampled=[%s] hard=[%s]' % (
         ','.join('%s|%d' % (n, c.best_layer_index()) for n, c in combs),
         ','.join('%s|%d' % (n, int(torch.argmax(c.theta_alpha))) for n, c in combs),
         ','.join('%s|%d' % (n, bool(c.hard_softmax)) for n, c in combs))
-    return {'hist_line': 'history st=%s ops=[%s]' % (st_field, ','.join(op_toks)), 'hist_real': real}
+    return {'hist_line': 'history st=%s ops=[%s]' % (state['st0'], ','.join(toks)), 'hist_real': real}
 
 
 def hist_is_stale(hist):
@@ -256,6 +317,13 @@ def hist_is_stale(hist):
     last_alpha = max([i for i, op in enumerate(hist) if op['op'] == 'alpha'], default=-1)
     last_fwd = max([i for i, op in enumerate(hist) if op['op'] == 'fwd'], default=-1)
     return last_alpha > last_fwd
+
+
+def hist_class(hist):
+    """Class of a history ending in export(), for the finding key."""
+    if any(op['op'] == 'export' for op in hist):
+        return 'repeated-export'
+    return 'no-forward-since-alpha-change' if hist_is_stale(hist) else 'after-history'
 
 
 def _final_alphas(spec, hist):
@@ -271,7 +339,7 @@ def _random_history(rng, spec):
     train) in random order; every block is written at least once; in most histories the last write of
     alpha is NOT followed by a forward pass before export()."""
     sizes = [len(b['br']) for b in spec['blocks']]
-    how = lambda: rng.choice(['copy', 'load', 'data'])              # noqa: E731
+    how = lambda: rng.choice(['copy', 'load', 'data', 'datacopy', 'param'])   # noqa: E731
 
     def write(bi, avoid=None):
         w = rng.randrange(sizes[bi])
@@ -295,7 +363,19 @@ def _random_history(rng, spec):
         ops.append(misc())
     ops.append({'op': 'fwd', 'train': rng.random() < 0.3, 'seed': rng.randrange(1 << 20)})
     cur = {op['block']: op['w'] for op in ops if op['op'] == 'alpha'}
-    for bi in rng.sample(range(len(sizes)), rng.randint(1, len(sizes))):
+    # export() is a repeatable op: about half of the histories export once or twice before the end,
+    # with a write of alpha that moves the arg-max in between
+    for _ in range(rng.choice([0, 0, 1, 1, 2])):
+        if rng.random() < 0.3:
+            ops.append(misc())
+        ops.append({'op': 'export'})
+        for bi in rng.sample(range(len(sizes)), rng.randint(1, len(sizes))):
+            ops.append(write(bi, avoid=cur[bi]))
+            cur[bi] = ops[-1]['w']
+        if rng.random() < 0.3:
+            ops.append({'op': 'fwd', 'train': rng.random() < 0.3, 'seed': rng.randrange(1 << 20)})
+    for bi in rng.sample(range(len(sizes)), rng.randint(0 if any(o['op'] == 'export' for o in ops) else 1,
+                                                        len(sizes))):
         ops.append(write(bi, avoid=cur[bi]))
     for _ in range(rng.randint(0, 2)):
         op = misc()
@@ -337,19 +417,14 @@ def _work(item):
         # a fresh SuperNet per history: the replay starts from the same state
         net_h = S.build_net(spec)
         sn_h = SuperNet(net_h, input_shape=S.input_shape(spec), cost=params, full_cost=True)
-        alphas = _final_alphas(spec, hist)
-        winners = [max(range(len(a)), key=lambda i: a[i]) for a in alphas]
-        rec = _check_one(sn_h, net_h, spec, alphas, winners, 1.0, x, None, seed_line, hist=hist)
-        rec['alphas'], rec['winners'], rec['hist'] = alphas, winners, hist
-        out['recs'].append(rec)
+        out['recs'].extend(_run_history(sn_h, net_h, spec, hist, x, seed_line))
     return out
 
 
 # ----------------------------------------------------------------------------- verdicts
 def _finding_key(spec, winners, kind, hist=None):
     if hist is not None:
-        return 'C03:export:%s:%s' % ('no-forward-since-alpha-change' if hist_is_stale(hist)
-                                     else 'after-history', kind)
+        return 'C03:export:%s:%s' % (hist_class(hist), kind)
     if kind in ('raises', 'exported-forward-raises'):
         tails = [b['br'][w] in S.FUNCTIONAL_TAIL for b, w in zip(spec['blocks'], winners)]
         if any(tails):
@@ -369,7 +444,7 @@ def _fails(case):
     r = _work(item)
     if r['ctor_err']:
         return [('constructor-raises', r['ctor_err'])]
-    return r['recs'][0]['fail']
+    return r['recs'][-1 if case.get('hist') is not None else 0]['fail']
 
 
 def _shrink(case, kind, budget=40):
@@ -388,7 +463,7 @@ def _shrink(case, kind, budget=40):
         while i < len(best['hist']) and budget > 0:
             h2 = best['hist'][:i] + best['hist'][i + 1:]
             if {op['block'] for op in h2 if op['op'] == 'alpha'} == set(range(len(best['spec']['blocks']))) \
-                    and hist_is_stale(h2) == hist_is_stale(case['hist']):     # stay in the class of the key
+                    and hist_class(h2) == hist_class(case['hist']):           # stay in the class of the key
                 fa = _final_alphas(best['spec'], h2)
                 c = dict(best, hist=h2, alphas=fa, winners=[max(range(len(a)), key=lambda j: a[j]) for a in fa])
                 budget -= 1
